@@ -45,23 +45,19 @@ def distinctKeys (cmds : List Cmd) : List Str := (cmds.map (·.key)).eraseDups
 
 /-- property-level expectation for one flushed transaction: per trigger (position) and per written
     file whose path the pattern matches COMPONENT-WISE FROM THE START, one call carrying that file's
-    records in write order -/
+    records in write order.  (The model line uses `Trigger.match`, which follows the source: anchored
+    since the repair of C32-F1, the unanchored search if that statement is reverted - then the two
+    lines differ on every key matched only further right.) -/
 def specEvs (pats : List (List Comp)) (cmds : List Cmd) : List Fired :=
   pats.zipIdx.flatMap (fun pi =>
     ((distinctKeys cmds).filter (fun k => compAnchored pi.1 (splitSlash k))).map (fun k =>
       ⟨pi.2, k, (cmds.filter (fun c => c.key == k)).map (·.record)⟩))
-
-/-- keys on which the unanchored search matches although the pattern does not match from the start -/
-def unanchoredHit (pats : List (List Comp)) (cmds : List Cmd) : Bool :=
-  pats.any (fun p => (distinctKeys cmds).any (fun k =>
-    compMatch p (splitSlash k) && !compAnchored p (splitSlash k)))
 
 structure Acc where
   bs : List Store.Bucket
   tpd : Tpd
   outM : List String
   outS : List String
-  unanch : Bool
 
 def runTrig (matchers : List Str) (pats : Option (List (List Comp))) : Acc → List String → Option Acc
   | a, [] => some a
@@ -77,10 +73,7 @@ def runTrig (matchers : List Str) (pats : Option (List (List Comp))) : Acc → L
       let s := match pats with
         | some ps => r ++ showEvs (specEvs ps cmds)
         | none => ""
-      let u := match pats with
-        | some ps => unanchoredHit ps cmds
-        | none => false
-      runTrig matchers pats ⟨bs', t2, a.outM ++ [r ++ showEvs fired], a.outS ++ [s], a.unanch || u⟩ rest
+      runTrig matchers pats ⟨bs', t2, a.outM ++ [r ++ showEvs fired], a.outS ++ [s]⟩ rest
 
 def trigOp : Op := fun args =>
   match args with
@@ -89,13 +82,13 @@ def trigOp : Op := fun args =>
     let matchers := if ps == "-" then [] else ps.splitOn ","
     if !(matchers.all (fun m => inAlphabet m.toList && !m.isEmpty)) then "M:unsupported" else
     let pats := matchers.mapM (fun m => parsePattern m.toList)
-    match runTrig (matchers.map String.toList) pats ⟨[], Tpd.init, [], [], false⟩ steps with
+    match runTrig (matchers.map String.toList) pats ⟨[], Tpd.init, [], []⟩ steps with
     | none => "M:unsupported"
     | some a =>
       let m := " ".intercalate a.outM
       match pats with
       | none => s!"M:{m}"
-      | some _ => s!"M:{m}\tS:{" ".intercalate a.outS}\tH:{if a.unanch then "pattern_anchored" else ""}"
+      | some _ => s!"M:{m}\tS:{" ".intercalate a.outS}"
 
 def ops : OpTable := [("trig", trigOp)]
 
